@@ -99,3 +99,25 @@ def py_twin(op, f):
         d1, d2 = adapters.run_real('dir_profile', f)
         return [[float(np.sum(d1))]]
     return adapters.run_real(op, f)
+
+
+import contextlib, sys as _sys
+
+API_MODS = ['cython_profiles', 'cython_distances', 'cython_add', 'cython_directionality', 'cython_get_tau']
+
+
+@contextlib.contextmanager
+def pyx_backend():
+    """make the transliterated .pyx modules importable as `pyspike.cython.cython_*`, so that the
+    API layer takes its "compiled" branches; removed again on exit (the API imports lazily)"""
+    m = mods()
+    names = []
+    try:
+        for n in API_MODS:
+            full = 'pyspike.cython.' + n
+            _sys.modules[full] = m[n]
+            names.append(full)
+        yield
+    finally:
+        for full in names:
+            _sys.modules.pop(full, None)
